@@ -467,6 +467,11 @@ class StreamResponse(
         if self._payload_writer is None:
             raise RuntimeError("Cannot call write() before prepare()")
 
+        if self._must_be_empty_body:
+            # HEAD, 1xx, 204, 304: the message ends with its header section
+            # (which announces no framing), so nothing may follow it.
+            return
+
         await self._payload_writer.write(data)
 
     async def drain(self) -> None:
@@ -489,7 +494,7 @@ class StreamResponse(
 
         assert self._payload_writer is not None, "Response has not been started"
 
-        await self._payload_writer.write_eof(data)
+        await self._payload_writer.write_eof(b"" if self._must_be_empty_body else data)
         self._eof_sent = True
         self._req = None
         self._body_length = self._payload_writer.output_size
